@@ -12,9 +12,11 @@ def _s(x):
 def str_method(name, recv, *args, **kw):
     r = _s(recv)
     if name == 'lower' or name == 'casefold':
-        return mk_str(_LOWER(r))
+        return mk_str(lower_nf(r))
     if name == 'upper':
         return mk_str(_UPPER(r))
+    if name == 'split' and len(args) == 1 and isinstance(args[0], str) and len(args[0]) == 1:
+        return structural_split(r, args[0])
     if name == 'join':
         (items,) = args
         if isinstance(items, SV):
@@ -95,6 +97,54 @@ def str_method(name, recv, *args, **kw):
     if hook is not None:
         return hook(name, recv, *args, **kw)
     raise OutOfSubset('str.%s on a symbolic string' % name)
+
+
+def lower_nf(t):
+    """lower() pushed to the leaves of a concatenation (ASCII: lower is a character-wise homomorphism) and
+    evaluated on literals"""
+    t = z3.simplify(t)
+    if z3.is_string_value(t):
+        return z3.StringVal(t.as_string().lower())
+    if z3.is_app(t) and t.decl().kind() == z3.Z3_OP_SEQ_CONCAT:
+        return z3.Concat(*[lower_nf(a) for a in t.children()])
+    if z3.is_app(t) and t.decl().eq(_LOWER):
+        return t                    # idempotent
+    return _LOWER(t)
+
+
+def structural_split(t, sep):
+    """s.split(sep) for a string term that is an explicit concatenation: literal pieces are split concretely,
+    symbolic pieces must be known (under the path condition) not to contain the separator"""
+    t = z3.simplify(t)
+
+    def flat(x):
+        if z3.is_app(x) and x.decl().kind() == z3.Z3_OP_SEQ_CONCAT:
+            r = []
+            for y in x.children():
+                r.extend(flat(y))
+            return r
+        return [x]
+    parts = flat(t)
+    out, cur = [], []
+    c = ctx()
+    for p in parts:
+        if z3.is_string_value(p):
+            pieces = p.as_string().split(sep)
+            cur.append(z3.StringVal(pieces[0]))
+            for more in pieces[1:]:
+                out.append(cur)
+                cur = [z3.StringVal(more)]
+        else:
+            has = z3.Contains(p, z3.StringVal(sep))
+            if c.known(has) is not False and c.feasible(has):
+                raise OutOfSubset('split(%r) of a symbolic piece that may contain the separator' % sep)
+            cur.append(p)
+    out.append(cur)
+    res = []
+    for piece in out:
+        piece = [x for x in piece if not (z3.is_string_value(x) and x.as_string() == '')] or [z3.StringVal('')]
+        res.append(mk_str(piece[0] if len(piece) == 1 else z3.Concat(*piece)))
+    return res
 
 
 # ---- interpreted lower() for counterexample search (bounded length; ASCII) ----------------------------------
